@@ -140,7 +140,7 @@ def stream_trace(inst):
     mode_g, mode_lj, total_lj, n1 = inner["mode"]
     NG = math.comb(K + P - 1, P)
     ev = [{"op": "start", "P": P, "Fn": inst["Fn"], "Fd": inst["Fd"], "H": inst["H"], "A": inst["A"],
-           "w": inst["w"], "reads": inst["reads"]}]
+           "w": inst["w"], "reads": inst["reads"], "tile": inst.get("tile", 1)}]
     for i in range(n1):
         g, lp = calls[i]
         lj = llks[i] + lp
